@@ -204,3 +204,176 @@ func runProg1(m *Model, r *RuleResult) {
 		}
 	}
 }
+
+// ---------- WIDTH-1 ----------
+
+func init() {
+	register(&Rule{
+		ID: "WIDTH-1",
+		Doc: "block widths dominate member widths (hypothesis of PROG-1's separation clause): the recursive colouring function of the SinkColoring positioner - the recursive function of phase 4 returning (*Node, float64) - returns on every path a width that is the visited node's own W or a max(...) that includes it; " +
+			"in its caller that width flows only into a max-reduction stored in a map cell (the block's width so far). A node wider than its block's recorded width sticks out of the slot that placeBlock reserves for it and overlaps its neighbour",
+		Floor: 2,
+		Ctl:   []string{"internal__phase4__width1.go.txt"},
+		Run:   runWidth1,
+	})
+}
+
+func runWidth1(m *Model, r *RuleResult) {
+	isOwnWidth := func(v ssa.Value, n ssa.Value) bool {
+		u, ok := v.(*ssa.UnOp)
+		if !ok || u.Op != token.MUL {
+			return false
+		}
+		fa, ok := u.X.(*ssa.FieldAddr)
+		if !ok {
+			return false
+		}
+		base, steps := fieldChain(fa)
+		return base == n && locOfSteps(steps) == igNode+".W"
+	}
+	var dominates func(v ssa.Value, n ssa.Value, depth int) bool
+	dominates = func(v ssa.Value, n ssa.Value, depth int) bool {
+		if depth > 4 {
+			return false
+		}
+		if isOwnWidth(v, n) {
+			return true
+		}
+		switch x := v.(type) {
+		case *ssa.Call:
+			if b, ok := x.Call.Value.(*ssa.Builtin); ok && b.Name() == "max" {
+				for _, a := range x.Call.Args {
+					if dominates(a, n, depth+1) {
+						return true
+					}
+				}
+			}
+			if c := x.Call.StaticCallee(); c != nil && c.Pkg != nil && c.Pkg.Pkg.Path() == "math" && c.Name() == "Max" {
+				for _, a := range x.Call.Args {
+					if dominates(a, n, depth+1) {
+						return true
+					}
+				}
+			}
+		case *ssa.Phi:
+			for _, e := range x.Edges {
+				if !dominates(e, n, depth+1) {
+					return false
+				}
+			}
+			return len(x.Edges) > 0
+		}
+		return false
+	}
+	found := 0
+	for _, f := range m.Src {
+		if shortPkg(pkgPathOf(f)) != "internal/phase4" || f.Parent() != nil {
+			continue
+		}
+		res := f.Signature.Results()
+		if res.Len() != 2 || namedKey(res.At(0).Type()) != igNode {
+			continue
+		}
+		if b, ok := res.At(1).Type().Underlying().(*types.Basic); !ok || b.Kind() != types.Float64 {
+			continue
+		}
+		if len(staticCalls(f, func(c *ssa.Function) bool { return c == f })) == 0 {
+			continue
+		}
+		// the visited node: the first *Node parameter
+		var n ssa.Value
+		for _, p := range f.Params {
+			if namedKey(p.Type()) == igNode {
+				n = p
+				break
+			}
+		}
+		if n == nil {
+			continue
+		}
+		found++
+		ctl := m.FuncIsPosctl(f)
+		var bad []string
+		nret := 0
+		eachInstr(f, func(in ssa.Instruction) {
+			ret, ok := in.(*ssa.Return)
+			if !ok || len(ret.Results) != 2 {
+				return
+			}
+			nret++
+			if !dominates(ret.Results[1], n, 0) {
+				bad = append(bad, "the width returned at "+m.Pos(ret.Pos())+" ("+ret.Results[1].String()+") does not include the node's own width")
+			}
+		})
+		key := "block-width-includes-own:" + funcKey(f)
+		if len(bad) == 0 && nret > 0 {
+			r.add(Obligation{Key: key, Pos: m.Pos(f.Pos()), Desc: fmt.Sprintf("all %d returns hand back the node's own width or a max that includes it", nret), Verdict: "holds", Control: ctl})
+		} else {
+			r.add(Obligation{Key: key, Pos: m.Pos(f.Pos()), Desc: "the width reported for a node's block must be at least the node's own width", Verdict: "violation",
+				Detail: strings.Join(bad, "; ") + ": the node sticks out of the slot reserved for its block", Control: ctl})
+		}
+		// callers: the width flows only into max(M[k], w) stored to M[k]
+		for _, g := range m.Src {
+			if g == f || m.FuncIsPosctl(g) != ctl {
+				continue
+			}
+			for _, site := range staticCalls(g, func(c *ssa.Function) bool { return c == f }) {
+				v := site.Value()
+				if v == nil || v.Referrers() == nil {
+					continue
+				}
+				for _, ref := range *v.Referrers() {
+					ex, ok := ref.(*ssa.Extract)
+					if !ok || ex.Index != 1 || ex.Referrers() == nil {
+						continue
+					}
+					ckey := "block-width-max-reduced:" + funcKey(g)
+					okUse := len(*ex.Referrers()) > 0
+					why := ""
+					for _, r2 := range *ex.Referrers() {
+						if _, isDbg := r2.(*ssa.DebugRef); isDbg {
+							continue
+						}
+						call, isCall := r2.(*ssa.Call)
+						isMax := false
+						if isCall {
+							if b, ok := call.Call.Value.(*ssa.Builtin); ok && b.Name() == "max" {
+								isMax = true
+							}
+						}
+						if !isMax {
+							okUse, why = false, fmt.Sprintf("the width is used by %s at %s", r2.String(), m.Pos(r2.Pos()))
+							continue
+						}
+						// max(M[k], w) stored into M[k]
+						stored := false
+						if call.Referrers() != nil {
+							for _, r3 := range *call.Referrers() {
+								if mu, ok := r3.(*ssa.MapUpdate); ok && mu.Value == ssa.Value(call) {
+									for _, a := range call.Call.Args {
+										if lk, ok := a.(*ssa.Lookup); ok && sameMapValue(lk.X, mu.Map) && sameSSAExpr(lk.Index, mu.Key, 0) {
+											stored = true
+										}
+									}
+								}
+							}
+						}
+						if !stored {
+							okUse, why = false, "max(..., width) at "+m.Pos(call.Pos())+" is not stored back into the cell it reads"
+						}
+					}
+					if g != f {
+						if okUse {
+							r.add(Obligation{Key: ckey, Pos: m.Pos(site.Pos()), Desc: "the block width is the maximum of the widths reported for its members", Verdict: "holds", Control: ctl})
+						} else {
+							r.add(Obligation{Key: ckey, Pos: m.Pos(site.Pos()), Desc: "the block width must be the maximum of the widths reported for its members", Verdict: "violation", Detail: why, Control: ctl})
+						}
+					}
+				}
+			}
+		}
+	}
+	if found == 0 {
+		r.undecided("colouring-function", "-", "the recursive (*Node, float64) function of the SinkColoring positioner", "not found")
+	}
+}
